@@ -267,7 +267,7 @@ def r2_non_interference(ctx):
         for f, b, _ in field_reads(facts, SC, fld):
             users.add(f.closure_of or f.name)
     allowed = {SC + '::reset_stats', SC + '::searched_position_count', SC + '::cache_hit_count', SC + '::termination_count', SC + '::new',
-               MINIMAX} | set(x for x in search_cache_fns(facts) if x) | facts.only_through({SC + '::reset_stats', SC + '::searched_position_count', SC + '::cache_hit_count', SC + '::termination_count'})
+               MINIMAX} | set(x for x in search_cache_fns(facts) if x) | facts.only_through({SC + '::reset_stats', SC + '::searched_position_count', SC + '::cache_hit_count', SC + '::termination_count', SC + '::new', MINIMAX} | set(x for x in search_cache_fns(facts) if x))
     users = {u for u in users if not facts.fns[u].derived}
     ctx.ob(rule, SC, 'counters touched only by the search, reset_stats and the getters', users <= allowed, found=sorted(users - allowed), expected=[], nontrivial=False)
 
